@@ -136,15 +136,15 @@ impl AdditionalLifecycleEventsSet {
         &&& forall|s: S| #[trigger] s.unregister_req()
     }
     // the witnesses carry no information about a concrete dispatcher (they are abstract for every caller)
-    #[verifier::opaque] open spec fn w_registered(&self, t: RegistrationToken) -> bool { true }
-    #[verifier::opaque] open spec fn w_reregistered(&self, t: RegistrationToken) -> bool { true }
-    #[verifier::opaque] open spec fn w_unregister_called(&self, t: RegistrationToken) -> bool { true }
-    #[verifier::opaque] open spec fn w_unregistered(&self, t: RegistrationToken) -> bool { true }
-    #[verifier::opaque] open spec fn w_deferred(&self) -> bool { true }
-    #[verifier::opaque] open spec fn w_processed(&self, readiness: Readiness, token: Token) -> bool { true }
-    #[verifier::opaque] open spec fn w_before_sleep(&self) -> bool { true }
-    #[verifier::opaque] open spec fn w_synthetic(&self, readiness: Readiness, token: Token) -> bool { true }
-    #[verifier::opaque] open spec fn w_before_handle_events(&self, t: RegistrationToken, ev: Seq<crate::sys::PollEvent>) -> bool { true }
+    open spec fn w_registered(&self, t: RegistrationToken) -> bool { true }
+    open spec fn w_reregistered(&self, t: RegistrationToken) -> bool { true }
+    open spec fn w_unregister_called(&self, t: RegistrationToken) -> bool { true }
+    open spec fn w_unregistered(&self, t: RegistrationToken) -> bool { true }
+    open spec fn w_deferred(&self) -> bool { true }
+    open spec fn w_processed(&self, readiness: Readiness, token: Token) -> bool { true }
+    open spec fn w_before_sleep(&self) -> bool { true }
+    open spec fn w_synthetic(&self, readiness: Readiness, token: Token) -> bool { true }
+    open spec fn w_before_handle_events(&self, t: RegistrationToken, ev: Seq<crate::sys::PollEvent>) -> bool { true }
 //@ endregion
 //@ item src/sources/mod.rs / impl EventDispatcher<Data> for RefCell<DispatcherInner<S, F>> / fn process_events props=C14 sigonly
 //@ enditem
